@@ -1,11 +1,13 @@
 package c06
 
 import (
+	"bufio"
 	"bytes"
 	"fmt"
 	"io"
 	"io/ioutil"
 	"os"
+	"strings"
 	"testing"
 
 	hccrypto "github.com/brutella/hc/crypto"
@@ -58,7 +60,49 @@ func (r *chunkReader) Read(p []byte) (int, error) {
 	return n, nil
 }
 
-var readerModes = []string{"whole", "onebyte", "halves", "chunks", "with-eof", "chunks-with-eof", "chunks-with-empty-reads"}
+var readerModes = []string{"whole", "onebyte", "halves", "chunks", "with-eof", "chunks-with-eof", "chunks-with-empty-reads",
+	// reader types of the standard library (an implementation may treat a type it recognises specially):
+	"bytes-buffer", "staging-buffer", "strings-reader", "bufio", "multi"}
+
+// source returns the reader handed to Encrypt and a function that tells how many bytes of the message the
+// reader still holds. "staging-buffer" is one bytes.Buffer per direction that lives as long as the session:
+// the message is written into it and the buffer itself is the source (what a writer with a staging buffer does).
+func (p *pairState) source(m msg, payload []byte) (io.Reader, func() int) {
+	d := append([]byte{}, payload...)
+	switch m.Mode {
+	case "bytes-buffer":
+		b := bytes.NewBuffer(d)
+		return b, b.Len
+	case "staging-buffer":
+		if p.stage == nil {
+			p.stage = map[bool]*bytes.Buffer{}
+		}
+		b := p.stage[m.ToAccessory]
+		if b == nil {
+			b = &bytes.Buffer{}
+			p.stage[m.ToAccessory] = b
+		}
+		b.Write(d)
+		return b, b.Len
+	case "strings-reader":
+		r := strings.NewReader(string(d))
+		return r, r.Len
+	case "bufio":
+		in := bytes.NewReader(d)
+		r := bufio.NewReaderSize(in, 16)
+		return r, func() int { return in.Len() + r.Buffered() }
+	case "multi":
+		h := len(d) / 2
+		a, b := bytes.NewReader(d[:h]), bytes.NewBuffer(d[h:])
+		return io.MultiReader(a, b), func() int { return a.Len() + b.Len() }
+	}
+	r := mkReader(m.Mode, payload, m.Sizes)
+	if c, ok := r.(*chunkReader); ok {
+		return r, func() int { return len(c.data) }
+	}
+	br := r.(*bytes.Reader)
+	return br, br.Len
+}
 
 func mkReader(mode string, data []byte, sizes []int) io.Reader {
 	d := append([]byte{}, data...)
@@ -126,6 +170,7 @@ type pairState struct {
 	// second pair used for reference-sealed traffic into hc
 	server2, client2 hccrypto.Cryptographer
 	sa2c, sc2a       *refctl.Sealer
+	stage            map[bool]*bytes.Buffer
 }
 
 func newPair(secret [32]byte) (*pairState, error) {
@@ -154,13 +199,17 @@ func (p *pairState) send(m msg) error {
 		dst2, sealer = p.server2, p.sc2a
 	}
 	// (1) wire conformance of hc's output
-	enc, err := src.Encrypt(mkReader(m.Mode, payload, m.Sizes))
+	source, left := p.source(m, payload)
+	enc, err := src.Encrypt(source)
 	if err != nil {
 		return fmt.Errorf("Encrypt returned error: %v", err)
 	}
 	wire, err := ioutil.ReadAll(enc)
 	if err != nil {
 		return fmt.Errorf("reading Encrypt's result: %v", err)
+	}
+	if n := left(); n != 0 {
+		return fmt.Errorf("after Encrypt and reading its whole result, %d of the message's %d bytes are still unread in the source reader (%s): the next message written through it would carry them again", n, len(payload), m.Mode)
 	}
 	startCount := opener.Count
 	plain, frames, err := opener.OpenAll(wire)
@@ -317,6 +366,9 @@ func TestC06Exhaustive(t *testing.T) {
 				{ToAccessory: false, Len: l, Mode: mode, Sizes: []int{7, 1024, 300}, Seed: uint32(l)},
 				{ToAccessory: true, Len: l, Mode: mode, Sizes: []int{1023, 2}, Seed: uint32(l) + 77},
 				{ToAccessory: false, Len: 5, Mode: "whole", Seed: 1},
+			}
+			if mode == "staging-buffer" {
+				ms[2].Mode = mode
 			}
 			record(ms, "fixed")
 			p, _ := newPair(secret)
